@@ -855,6 +855,7 @@ func (d *cborDecDriver[T]) nextValueBytesBdReadR() {
 			d.r.skip(uint(ui))
 		}
 	case cborMajorArray:
+		d.d.depthIncr() // the walker recurses: bound it like decoding does
 		if d.bd == cborBdIndefiniteArray {
 			for {
 				d.readNextBd()
@@ -870,7 +871,9 @@ func (d *cborDecDriver[T]) nextValueBytesBdReadR() {
 				d.nextValueBytesBdReadR()
 			}
 		}
+		d.d.depthDecr()
 	case cborMajorMap:
+		d.d.depthIncr()
 		if d.bd == cborBdIndefiniteMap {
 			for {
 				d.readNextBd()
@@ -890,10 +893,13 @@ func (d *cborDecDriver[T]) nextValueBytesBdReadR() {
 				d.nextValueBytesBdReadR()
 			}
 		}
+		d.d.depthDecr()
 	case cborMajorTag:
 		d.uintBytes()
+		d.d.depthIncr()
 		d.readNextBd()
 		d.nextValueBytesBdReadR()
+		d.d.depthDecr()
 	case cborMajorSimpleOrFloat:
 		switch d.bd {
 		case cborBdNil, cborBdUndefined, cborBdFalse, cborBdTrue: // pass
